@@ -24,7 +24,7 @@ func intrinsicName(fn *ssa.Function) string {
 	}
 	switch n {
 	case "vs_assume", "vs_assert", "vs_old", "vs_all", "vs_any", "vs_fresh", "vs_modifies",
-		"vs_visited", "vs_cover", "vs_same", "vs_done":
+		"vs_visited", "vs_cover", "vs_same", "vs_done", "vs_called", "vs_callResult", "vs_callArg":
 		return n
 	}
 	return ""
@@ -70,7 +70,26 @@ func (x *Exec) callCommon(fr *Frame, st *State, ins ssa.Instruction, cc *ssa.Cal
 		x.builtin(fr, st, ins, cc, callee, res)
 		return
 	case *ssa.Function:
+		var argTerms []Term
+		record := fr == x.root && !fr.spec && !strings.HasPrefix(callee.Name(), "vs_") && x.vc.noName == 0
+		if record {
+			argTerms = x.args(fr, st, cc)
+		}
 		x.staticCall(fr, st, ins, cc, callee, nil, res)
+		if record {
+			rec := &callRec{called: tTrue, args: argTerms}
+			if res != nil {
+				if t, ok := fr.regs[res]; ok {
+					rec.results = []Term{t}
+				} else if tup, ok := fr.tuples[res]; ok {
+					rec.results = tup
+				}
+			}
+			if st.calls == nil {
+				st.calls = map[string]*callRec{}
+			}
+			st.calls[callee.Name()] = rec
+		}
 		return
 	case *ssa.MakeClosure:
 		c := fr.clos[callee]
@@ -548,9 +567,12 @@ func (x *Exec) reachableHeaps(sig *types.Signature) []heapID {
 		case *types.Array:
 			visit(u.Elem(), depth+1)
 		case *types.Interface:
-			// closed world: the dynamic types are those the target packages convert to interfaces
+			// closed world: the dynamic types are those the target packages convert to
+			// interfaces and that implement this interface type
 			for _, bt := range x.eng.boxedTypes() {
-				visit(bt, depth+1)
+				if u.NumMethods() == 0 || types.Implements(bt, u) {
+					visit(bt, depth+1)
+				}
 			}
 		}
 	}
